@@ -51,7 +51,7 @@ var kindBatch = [nKinds]int{kBoxR: 12, kBoxSR: 12, kParamSets: 6, kSlice: 4, kSE
 var kindClass = [nKinds]string{"file", "file", "file", "box", "box", "file", "file", "file", "file", "file", "file", "file",
 	"psets", "sample", "sei", "annexb|sample", "sample", "file", "file"}
 
-var kindVariants = [nKinds]int{kInfo: 5, kEncode: 4, kEncodeSW: 2, kEncrypt: 8, kSidx: 2, kFragmentify: 2, kAnnexB: 1, kParamSets: 2}
+var kindVariants = [nKinds]int{kDecodeR: 2, kBoxR: 2, kSEI: 2, kInfo: 5, kEncode: 4, kEncodeSW: 2, kEncrypt: 8, kSidx: 2, kFragmentify: 2, kAnnexB: 1, kParamSets: 2}
 
 var infoLevels = []string{"", "all:1", "trun:1,stsz:1,senc:1,sidx:1", "all:2", "stss:1,ctts:1,stts:1,all:0"}
 
@@ -136,10 +136,37 @@ func decodeR(in *input) (*mp4.File, error) {
 	return mp4.DecodeFile(bytes.NewReader(in.data))
 }
 
+// plainReader hides every optional interface of the reader it wraps
+// (io.ByteReader, io.Seeker, io.WriterTo, ...): what a file or a network
+// connection looks like to the library. Short reads included.
+type plainReader struct {
+	r     io.Reader
+	chunk int
+}
+
+// plainReadSeeker is a ReadSeeker with nothing but Read and Seek (an *os.File as the library sees it).
+type plainReadSeeker struct{ rs io.ReadSeeker }
+
+func (p *plainReadSeeker) Read(b []byte) (int, error)         { return p.rs.Read(b) }
+func (p *plainReadSeeker) Seek(o int64, w int) (int64, error) { return p.rs.Seek(o, w) }
+
+func (p *plainReader) Read(b []byte) (int, error) {
+	if p.chunk > 0 && len(b) > p.chunk {
+		b = b[:p.chunk]
+	}
+	return p.r.Read(b)
+}
+
 // ---- container level -------------------------------------------------------
 
-func opDecodeR(pl *pool, in *input, _ int) (uint64, error) {
-	f, err := decodeR(in)
+func opDecodeR(pl *pool, in *input, variant int) (uint64, error) {
+	var f *mp4.File
+	var err error
+	if variant == 1 {
+		f, err = mp4.DecodeFile(&plainReader{r: bytes.NewReader(in.data), chunk: 4096})
+	} else {
+		f, err = decodeR(in)
+	}
 	if err != nil {
 		return 0, err
 	}
@@ -202,8 +229,12 @@ func opDecodeLazy(pl *pool, in *input, _ int) (uint64, error) {
 	return h, nil
 }
 
-func opBoxR(pl *pool, in *input, _ int) (uint64, error) {
-	b, err := mp4.DecodeBox(0, bytes.NewReader(in.data))
+func opBoxR(pl *pool, in *input, variant int) (uint64, error) {
+	var rd io.Reader = bytes.NewReader(in.data)
+	if variant == 1 {
+		rd = &plainReader{r: rd, chunk: 7}
+	}
+	b, err := mp4.DecodeBox(0, rd)
 	if err != nil {
 		return 0, err
 	}
@@ -786,14 +817,31 @@ func hashSEIMsgs(d *deepHasher, msgs []sei.SEIMessage) error {
 	return nil
 }
 
-func opSEI(pl *pool, in *input, _ int) (uint64, error) {
+func opSEI(pl *pool, in *input, variant int) (uint64, error) {
 	d := newDeepHasher()
 	hdr := 1
 	if in.codec == "hevc" {
 		hdr = 2
 	}
 	// raw messages
-	sds, err := sei.ExtractSEIData(bytes.NewReader(in.data[hdr:]))
+	var rd io.ReadSeeker = bytes.NewReader(in.data[hdr:])
+	if variant == 1 {
+		// a source without ReadByte, and the bit readers of the bits package over such a source
+		rd = &plainReadSeeker{rs: rd}
+		br := bits.NewReader(&plainReader{r: bytes.NewReader(in.data)})
+		for i := 0; i < 64 && br.AccError() == nil; i++ {
+			d.u64(uint64(br.Read(1 + i%13)))
+		}
+		er := bits.NewEBSPReader(&plainReader{r: bytes.NewReader(in.data[hdr:])})
+		for i := 0; i < 48 && er.AccError() == nil; i++ {
+			if i%3 == 0 {
+				d.u64(uint64(er.ReadExpGolomb()))
+			} else {
+				d.u64(uint64(er.Read(1 + i%11)))
+			}
+		}
+	}
+	sds, err := sei.ExtractSEIData(rd)
 	if err != nil && err != sei.ErrRbspTrailingBitsMissing {
 		return 0, err
 	}
